@@ -102,6 +102,25 @@ pub fn apply_element_op(m: &mut ElemMut, op: &Op, chc: bool, orig_attrs: &[(Stri
                 m.e.before(Chunk(s.clone(), *c))
             }
         }
+        Op::StreamPrepend(p, c) => {
+            if chc {
+                m.s.after(Chunk(p.concat(), *c))
+            }
+        }
+        Op::StreamAppend(p, c) => {
+            if chc {
+                m.e.before(Chunk(p.concat(), *c))
+            }
+        }
+        Op::StreamSetInner(p, c) => {
+            if chc {
+                clear_content(m);
+                m.s.after(Chunk(p.concat(), *c));
+            }
+        }
+        // StartTag-level edits through Element::start_tag()
+        Op::StartBefore(s, c) => m.s.before(Chunk(s.clone(), *c)),
+        Op::StartAfter(s, c) => m.s.after(Chunk(s.clone(), *c)),
         Op::SetInner(s, c) => {
             if chc {
                 clear_content(m);
